@@ -20,6 +20,33 @@ from flowmark.file_resolver.types import FileResolverConfig
 _GLOB_CHARS = frozenset("*?[")
 
 
+def _gitignore_decision(spec: pathspec.PathSpec, rel: str, is_dir: bool) -> bool | None:
+    """
+    What one `.gitignore` says about the path `rel` (relative to its directory): True =
+    ignored, False = re-included by a `!pattern`, None = no pattern applies. The last
+    matching pattern wins. Like git, a pattern must match the path itself: pathspec also
+    reports a match when a pattern matches one of the path's parent directories
+    (`docs/` or `!docs` "match" `docs/a.md`), but parents are decided on their own before
+    their content is visited. Only a trailing `/**` genuinely means "everything inside"
+    (and then does not match the directory itself).
+    """
+    parent = rel.rstrip("/").rpartition("/")[0]
+    for pattern in reversed(spec.patterns):
+        if pattern.include is None:
+            continue
+        inside_only = str(getattr(pattern, "pattern", "")).rstrip(" ").endswith("/**")
+        if inside_only:
+            if pattern.match_file(rel.rstrip("/")) is None:
+                continue
+        else:
+            if pattern.match_file(rel + ("/" if is_dir else "")) is None:
+                continue
+            if parent and pattern.match_file(parent + "/") is not None:
+                continue  # matched through a parent directory only
+        return bool(pattern.include)
+    return None
+
+
 class FileResolver:
     """
     Discovers files matching configured include patterns while respecting
@@ -114,9 +141,10 @@ class FileResolver:
             ]
 
             # Collect gitignore specs for this directory (including ancestors)
-            gitignore_specs: list[pathspec.PathSpec] = []
+            gitignore_chain: list[tuple[Path, pathspec.PathSpec]] = []
             if self._config.respect_gitignore:
-                gitignore_specs = self._get_gitignore_chain(current, root)
+                gitignore_chain = self._get_gitignore_chain(current, root)
+            resolved_current = current.resolve()
 
             # Yield files matching include patterns (applying gitignore + tool ignore)
             for filename in filenames:
@@ -125,7 +153,7 @@ class FileResolver:
                     continue
                 if self._exceeds_max_size(filepath):
                     continue
-                if any(spec.match_file(filename) for spec in gitignore_specs):
+                if self._is_gitignored(resolved_current / filename, False, gitignore_chain):
                     continue
                 if tool_ignore and tool_ignore.match_file(filename):
                     continue
@@ -150,9 +178,9 @@ class FileResolver:
 
         if self._config.respect_gitignore:
             root = walk_root if walk_root is not None else current_dir
-            for spec in self._get_gitignore_chain(current_dir, root):
-                if spec.match_file(dir_with_slash):
-                    return True
+            chain = self._get_gitignore_chain(current_dir, root)
+            if self._is_gitignored(current_dir.resolve() / dirname, True, chain):
+                return True
 
         if tool_ignore and tool_ignore.match_file(dir_with_slash):
             return True
@@ -193,9 +221,26 @@ class FileResolver:
             self._gitignore_cache[directory] = load_gitignore(directory)
         return self._gitignore_cache[directory]
 
-    def _get_gitignore_chain(self, directory: Path, walk_root: Path) -> list[pathspec.PathSpec]:
-        """Collect all gitignore specs from walk_root down to directory (inclusive)."""
-        specs: list[pathspec.PathSpec] = []
+    @staticmethod
+    def _is_gitignored(
+        path: Path, is_dir: bool, chain: list[tuple[Path, pathspec.PathSpec]]
+    ) -> bool:
+        """
+        Decide like git: patterns are relative to the directory of their `.gitignore`, the
+        deepest `.gitignore` that has a matching pattern decides, and within one file the
+        last matching pattern wins (so `!pattern` can re-include).
+        """
+        for base, spec in reversed(chain):
+            decision = _gitignore_decision(spec, path.relative_to(base).as_posix(), is_dir)
+            if decision is not None:
+                return decision
+        return False
+
+    def _get_gitignore_chain(
+        self, directory: Path, walk_root: Path
+    ) -> list[tuple[Path, pathspec.PathSpec]]:
+        """Collect (directory, spec) pairs from walk_root down to directory (inclusive)."""
+        specs: list[tuple[Path, pathspec.PathSpec]] = []
         resolved_root = walk_root.resolve()
         resolved_dir = directory.resolve()
         # Walk from root down to current directory
@@ -203,7 +248,7 @@ class FileResolver:
         while True:
             spec = self._get_gitignore(current)
             if spec is not None:
-                specs.append(spec)
+                specs.append((current, spec))
             if current == resolved_dir:
                 break
             try:
